@@ -92,6 +92,8 @@ def norm_text(s):
             skip_src = False
             continue
         skip_src = False
+        if line.strip() and set(line) <= {' ', '^', '~'}:
+            continue                              # caret line under a traceback source line
         out.append(_ADDR.sub('0x?', line))
     return '\n'.join(out)
 
@@ -171,6 +173,7 @@ class Ctx:
         self.tid, self.sched, self.stubs = tid, sched, stubs
         self.logs = [log] if log is not None else None      # stack of event lists (alone run)
         self.inner = {}                                      # nested call id -> (outcome, exception) as observed
+        self.paths = {}                                      # re-entry id -> scope[Path] of the running call there
 
     def yield_point(self, idx):
         if self.logs is not None:
@@ -350,12 +353,11 @@ class NestedS(Nested):
         return 'NS%d' % self.nid
 
 
-# how a re-entrant call is handed a scope.  'kwrun' / 'kwcopy' (glom(t, spec, scope=<running scope>))
-# are generated only when REENT_GLOM_KW is set: on the unchanged tree glom() copies the caller's error
-# bookkeeping (CHILD_ERRORS list, NO_PYFRAME …) into the new call -- reported as a finding, not adapted to.
-REENT_GLOM_KW = bool(os.environ.get('C20_REENT_GLOM_KW'))
-HOWS = ['none', 'user', 'copy', 'run']
-HOWS_KW = ['kwrun', 'kwcopy']
+# how a re-entrant call is handed a scope: none / the user's variables only / a dict copy of the running
+# scope / the running scope itself, through Spec(inner).glom(t, scope=…) ('copy', 'run') or through
+# glom(t, inner, scope=…) ('kwcopy', 'kwrun': glom() inherited the caller's CHILD_ERRORS list and
+# NO_PYFRAME marker until /repo 6021378)
+HOWS = ['none', 'user', 'copy', 'run', 'kwcopy', 'kwrun']
 
 
 def user_vars(scope):
@@ -393,13 +395,17 @@ class Reenter:
         if ctx.stubs is not None:
             out, exc = ctx.stubs[self.nid]
             if exc is not None:
-                raise copy.copy(exc)
+                raise exc.with_traceback(None)      # the very exception the isolated call ended with
             return ctx.stub_values[self.nid]
         target = dec(self.call['target'])
         spec = self.inner_spec
         if ctx.logs is not None:
             ctx.logs.append([])
         holder = {}
+        try:                                  # "where am I" of the running call: data a passed scope carries
+            ctx.paths[self.nid] = list(scope[glom.Path])
+        except (KeyError, TypeError):
+            pass
 
         def run():
             if how == 'none':
@@ -939,19 +945,25 @@ def run_nested(case, out, threads_payload, alone_ctxs):
     return out
 
 
-def isolated_inner(nid, d, kw):
-    """the inner call of a re-entry made in isolation, the way `how` makes it: as a top-level glom()
-    call handed the user's variables (none / user / kw*), or -- Spec(inner).glom(t, scope=<scope>)
-    evaluates inside the scope it is given and is not a glom() call of its own -- from a trivial
-    outer call that has nothing but the user's variables in its scope (copy / run)"""
+def isolated_inner(nid, d, kw, prefix):
+    """the inner call of a re-entry made in isolation, the way `how` makes it, and handed the same
+    data: as a top-level glom() call with the user's variables (none / user / kw*), or --
+    Spec(inner).glom(t, scope=<scope>) evaluates inside the scope it is given and is not a glom()
+    call of its own -- from a trivial outer call that has nothing but the user's variables in its
+    scope (copy / run).  When the running scope is handed over it carries the caller's position
+    (`scope[Path]`, the "(at path …)" of error messages), like it carries the caller's mode: the
+    isolated call starts at the same position (`path=prefix`)."""
     import glom
     c2 = Ctx(0)
     how = d['how']
     if how in ('copy', 'run'):
         r = Reenter(c2, nid, dict(d, after=None, catch=False))
-        outcome_of(lambda: glom.glom(None, glom.Call(r, args=(glom.T, glom.S)), **kw))
+        outcome_of(lambda: glom.glom(None, glom.Call(r, args=(glom.T, glom.S)), path=list(prefix), **kw))
+    elif how in ('kwcopy', 'kwrun'):
+        r = Reenter(c2, nid, dict(d, after=None, catch=False, how='kwcopy'))
+        outcome_of(lambda: r(None, dict(kw.get('scope', {}), **{glom.Path: list(prefix)})))
     else:
-        r = Reenter(c2, nid, dict(d, after=None, catch=False, how='none' if how == 'none' else 'user'))
+        r = Reenter(c2, nid, dict(d, after=None, catch=False))
         outcome_of(lambda: r(None, kw.get('scope', {})))
     return c2.inner[nid]
 
@@ -967,17 +979,20 @@ def run_reent(case, out, threads_payload, alone_ctxs):
     inner = nested_ids(outer['spec'], [])
     kinds = dict(nested_kinds(outer['spec'], []))
     payload = [threads_payload[0]]
-    alone_inner, stub_values = {}, {}
-    for nid, call in inner:
-        log, _, _ = run_alone(dict(call, scope=outer.get('scope') if kinds[nid]['how'] != 'none' else None), 0)
-        o2, exc, val = isolated_inner(nid, kinds[nid], kw)
-        alone_inner[nid] = (o2, exc)
-        stub_values[nid] = val
-        payload.append({'events': log, 'alone': o2})
+    # the outer call as it is
     clear_caches()
     ctx = Ctx(0)
     o_real = outcome_of(lambda: glom.glom(dec(outer['target']), build(outer['spec'], ctx), **kw))[0]
     pc, tc = snapshot_caches()
+    # every inner call in isolation
+    alone_inner, stub_values = {}, {}
+    for nid, call in inner:
+        log, _, _ = run_alone(dict(call, scope=outer.get('scope') if kinds[nid]['how'] != 'none' else None), 0)
+        o2, exc, val = isolated_inner(nid, kinds[nid], kw, ctx.paths.get(nid, []))
+        alone_inner[nid] = (o2, exc)
+        stub_values[nid] = val
+        payload.append({'events': log, 'alone': o2})
+    # the outer call with the isolated outcomes as constants
     sctx = Ctx(0, stubs=alone_inner)
     sctx.stub_values = stub_values
     o_stub = outcome_of(lambda: glom.glom(dec(outer['target']), build(outer['spec'], sctx), **kw))[0]
@@ -1110,6 +1125,119 @@ def gen_shared(rng, tier):
             yield {'mode': 'shared', 'names': [name], 'spec': spec, 'targets': targets, 'reps': 15 if quick else 60}
 
 
+class ReentGen:
+    """randomised, type-directed generator of outer calls that re-enter glom with access to the
+    running scope.  Choices: the re-entry point (custom glomit spec / plain callable given S), the
+    way the scope is handed over (HOWS), the inner outcome (value / failure that is caught /
+    failure that propagates; the inner spec may read the user's scope variable, may re-enter
+    itself), what the re-entering spec evaluates afterwards as a child of the running scope
+    (nothing / a spec that succeeds / one that fails / another re-entry), and what surrounds it
+    (dict value with a sibling, tuple chain with later steps, Coalesce alternative, Spec wrapper;
+    siblings, later steps and alternatives succeed or fail)."""
+
+    def __init__(self, rng, u):
+        self.rng, self.u, self.nid = rng, u, 0
+        self.ku = 'k%s' % u
+        self.target = D(a=D(b=D(c=1, d=2), e=5), o=D(), **{self.ku: D(z=7)})
+        self.inner_target = D(p=D(q=3), io=1, **{'i' + self.ku: D(z=8)})
+
+    def ok_spec(self):
+        r = self.rng
+        return r.choice([['path', 'a.b.c'], ['path', self.ku + '.z'], ['T', [['[', 'a'], ['[', 'e']]],
+                         ['tuple', [['path', 'a.b'], ['y', 0], ['path', 'd']]], ['val', 'lit'],
+                         ['coalesce', [['path', 'a.zz'], ['path', 'a.e']]]])
+
+    def fail_spec(self):
+        r = self.rng
+        return r.choice([['path', 'o.om' + str(self.u)], ['path', 'a.nope'], ['T', [['[', 'o'], ['[', 'missing']]],
+                         ['tuple', [['path', 'a.e'], ['boom']]],
+                         ['coalesce', [['path', 'zz'], ['path', 'a.zq']]],
+                         ['tuple', [['path', 'a.b'], ['matchd', [['c', 'str']]]]],
+                         ['dict', [['k', ['path', 'a.e']], ['m', ['path', 'a.b.zz']]]]])
+
+    def inner_spec(self, ok, depth, how):
+        r = self.rng
+        if depth < 2 and r.random() < 0.15:           # the inner call re-enters itself
+            node = self.reenter(depth + 1, target=self.inner_target_spec_ok, inner=True)
+            return ['tuple', [['T', []], node] + ([] if ok else [['path', 'nope.' + self.ku]])]
+        if ok:
+            opts = [['path', 'p.q'], ['T', [['[', 'io']]], ['tuple', [['path', 'p'], ['y', 7], ['path', 'q']]],
+                    ['path', 'i' + self.ku + '.z'], ['coalesce', [['path', 'nope'], ['path', 'io']]]]
+            if how != 'none':
+                opts.append(['tuple', [['sget', 'uv'], ['y', 7]]])
+            return r.choice(opts)
+        return r.choice([['path', 'p.nope'], ['path', 'inner-missing'], ['tuple', [['path', 'p'], ['boom']]],
+                         ['coalesce', [['path', 'zz'], ['tuple', [['path', 'p'], ['path', 'x.' + self.ku]]]]],
+                         ['tuple', [['path', 'p'], ['matchd', [['q', 'str']]]]],
+                         ['T', [['[', 'p'], ['[', 'zz']]]])
+
+    inner_target_spec_ok = None
+
+    def reenter(self, depth, target=None, inner=False):
+        r = self.rng
+        self.nid += 1
+        nid = self.nid
+        point = r.choice(['glomit', 'glomit', 'callable'])
+        how = r.choice(HOWS)
+        ok = r.random() < 0.35
+        catch = ok or r.random() < 0.75
+        d = {'point': point, 'how': how, 'catch': catch,
+             'inner': {'target': self.inner_target, 'spec': self.inner_spec(ok, depth, how)}}
+        if point == 'glomit':
+            x = r.random()
+            if inner:                                  # evaluated against the inner target
+                d['after'] = None if x < 0.5 else r.choice([['path', 'p.q'], ['path', 'p.gone']])
+            elif x < 0.2:
+                d['after'] = None
+            elif x < 0.4:
+                d['after'] = self.ok_spec()
+            elif x < 0.85 or depth >= 2:
+                d['after'] = self.fail_spec()
+            else:
+                d['after'] = self.reenter(depth + 1)
+        return ['reenter', nid, d]
+
+    def wrap(self, node):
+        r = self.rng
+        k = r.choice(['dict', 'tuple', 'coalesce', 'spec', 'dict', 'tuple', 'coalesce'])
+        sib = self.ok_spec() if r.random() < 0.5 else self.fail_spec()
+        if k == 'dict':
+            items = [['x', node], ['s', sib]]
+            if r.random() < 0.4:
+                items.reverse()
+            return ['dict', items]
+        if k == 'tuple':
+            steps = ([['T', []]] if r.random() < 0.3 else []) + [node]
+            x = r.random()
+            if x < 0.3:
+                steps.append(['y', 1])
+            elif x < 0.6:                              # fails in a later chain step
+                steps.append(r.choice([['path', 'later.nope'], ['boom'], ['matchd', [['zz', 'int']]]]))
+            return ['tuple', steps]
+        if k == 'coalesce':
+            alts = [node, sib]
+            if r.random() < 0.3:
+                alts.reverse()
+            return ['coalesce', alts] + ([] if r.random() < 0.7 else ['dflt'])
+        return ['spec', node]
+
+    def case(self):
+        r = self.rng
+        node = self.reenter(1)
+        for _ in range(r.choice([0, 1, 1, 2, 2, 3])):
+            node = self.wrap(node)
+        call = {'target': self.target, 'spec': node}
+        if r.random() < 0.6:
+            call['scope'] = {'uv': 'outer-var-%s' % self.u}
+        return call
+
+
+def gen_reent(rng, tier, fresh):
+    quick = tier == 'quick'
+    for _ in range(420 if quick else 9000):
+        yield {'mode': 'reent', 'calls': [ReentGen(rng, fresh()).case()], 'names': ['reent']}
+
+
 def rand_interleaving(rng, segs):
     seq = [i for i, k in enumerate(segs) for _ in range(k)]
     rng.shuffle(seq)
@@ -1195,6 +1323,16 @@ def generate(rng, tier, scale, **focus):
     for rep in range(1 if quick else 5):
         for name, call in nested_templates(fresh()):
             yield {'mode': 'nested', 'calls': [call], 'names': [name]}
+    # --- re-entrant calls made with access to the running scope
+    yield from gen_reent(rng, tier, fresh)
+    # --- ... inside scheduled threads
+    for _ in range(12 if quick else 150):
+        call = ReentGen(rng, fresh()).case()
+        other = templates(fresh())[rng.randrange(len(names))]
+        ny = count_user_events(run_alone(call, 0)[0])
+        scheds = list(interleavings([ny + 1, other[2] + 1]))
+        for s in (rng.sample(scheds, 3) if len(scheds) > 3 else scheds):
+            yield {'mode': 'sched', 'calls': [call, other[1]], 'schedule': s, 'names': ['reent', other[0]]}
     # --- nestings inside scheduled threads
     nts = nested_templates(fresh())
     for name, call in (nts[:4] + nts[6:8]) if quick else nts:
@@ -1263,7 +1401,7 @@ def interleaved(schedule):
 
 
 def nontrivial(case, verdict):
-    if case['mode'] in ('nested', 'free'):
+    if case['mode'] in ('nested', 'free', 'reent'):
         return True
     if case['mode'] == 'shared':
         return 'nest_at' in case or case.get('schedule') is None or interleaved(case['schedule'])
